@@ -24,8 +24,10 @@ CONSTANT Pid      \* "C09" | "C10": the property this run reports.  Its clauses 
 
 Traces == JsonDeserialize(IOEnv.TRACE_FILE)
 
-VARIABLES tid, l, verdict
-tvars == <<s, last, nops, nenv, tid, l, verdict>>
+VARIABLES tid, l, verdict,
+          drift      \* first "model:" clause that failed in this trace ("" if none): the model then adopts
+                     \* the observation and the property clauses keep being judged on the rest of the trace
+tvars == <<s, last, nops, nenv, tid, l, verdict, drift>>
 
 \* constants for the generated cfg
 TrAll     == {"pty", "popen", "fd", "socket"}
@@ -45,21 +47,21 @@ FirstFailing(cs) ==
 Idle == InitState("pty", "default")
 
 TInit0 == /\ s = Idle /\ last = NoLast /\ nops = 0 /\ nenv = 0
-          /\ tid = 1 /\ l = 1 /\ verdict = "ok"
+          /\ tid = 1 /\ l = 1 /\ verdict = "ok" /\ drift = ""
 
 TStart ==
   /\ THas("init")
   /\ IF E.tr \in TrAll /\ E.disp \in DispsAll
      THEN s' = InitState(E.tr, E.disp) /\ verdict' = verdict
      ELSE s' = s /\ verdict' = "harness:bad-init"
-  /\ Step
+  /\ Step /\ UNCHANGED drift
 
 TEnv ==
   /\ THas("env")
   /\ LET X == EnvOutcomes(s, E.a, E.v) IN
      IF X = {} THEN s' = s /\ verdict' = "harness:env-action-not-enabled"
      ELSE s' = (CHOOSE t \in X : TRUE) /\ verdict' = verdict
-  /\ Step
+  /\ Step /\ UNCHANGED drift
 
 \* ---- judging one operation -------------------------------------------------
 Pick(X, o) ==
@@ -145,14 +147,27 @@ Follow(st, o) ==
   ELSE IF Pid = "C09" THEN [st EXCEPT !.touched = o.touched]      \* C10's business
   ELSE st
 
+ModelClauses == {"model:terminated", "model:exitstatus", "model:status", "model:ret", "model:ret-value", "model:proc", "model:fate",
+                 "model:fd", "model:gone", "model:closed", "model:child_fd", "model:flag_eof", "model:ptyprocess-closed",
+                 "model:descriptor-count", "model:touched"}
+Adopt(st, o) ==
+  [st EXCEPT !.proc = o.proc, !.fk = o.fk, !.fv = o.fv, !.fd = o.fd, !.gone = o.gone, !.closed = o.closed, !.fdv = o.fdv,
+             !.eof = o.eof, !.pclosed = o.pclosed, !.touched = o.touched,
+             !.term = o.term, !.es = o.es, !.ss = o.ss, !.sk = o.sk, !.sv = o.sv]
+
 TOp ==
   /\ THas("op")
   /\ LET X == Outcomes(s, E.op, E.arg) IN
      IF X = {} THEN s' = s /\ verdict' = "harness:operation-not-enabled"
      ELSE LET x == Pick(X, E)
               v == FirstFailing(Clauses(s, E, x))
-          IN /\ verdict' = v
-             /\ s' = IF v = "ok" THEN Follow(x.st, E) ELSE s
+          IN IF v = "ok" THEN verdict' = "ok" /\ s' = Follow(x.st, E) /\ drift' = drift
+             ELSE IF v \in ModelClauses
+             THEN \* every property clause held at this operation; the implementation-shaped model did not
+                  \* predict what happened (SPEC-DRIFT): adopt the observation and keep judging
+                  /\ verdict' = "ok" /\ drift' = (IF drift = "" THEN v ELSE drift)
+                  /\ s' = Adopt(Follow(x.st, E), E)
+             ELSE verdict' = v /\ s' = s /\ drift' = drift
   /\ Step
 
 TEnd ==
@@ -163,7 +178,7 @@ TEnd ==
         << s.tr = "pty" => E.proc = "reaped", "C10:zombie-leak" >>,
         << E.dfds = 0, "harness:descriptor-count-went-down" >> >>)
   /\ s' = s
-  /\ Step
+  /\ Step /\ UNCHANGED drift
 
 \* run(..., withexitstatus=True) returned (output, exitstatus)
 TRunRet ==
@@ -172,13 +187,13 @@ TRunRet ==
         << IF s.fk = "exit" THEN (~E.isnone /\ E.rv = s.fv) ELSE E.isnone, "C09:run-exitstatus" >>,
         << E.rv = s.es, "C09:run-exitstatus" >> >>)
   /\ s' = s
-  /\ Step
+  /\ Step /\ UNCHANGED drift
 
 TNextTrace ==
   /\ (l > Len(Ev) \/ verdict # "ok")
-  /\ PrintT(<<"VERDICT", tid, Traces[tid].id, verdict, l>>)
+  /\ PrintT(<<"VERDICT", tid, Traces[tid].id, (IF verdict # "ok" THEN verdict ELSE IF drift # "" THEN drift ELSE "ok"), l>>)
   /\ tid < Len(Traces)
-  /\ tid' = tid + 1 /\ l' = 1 /\ verdict' = "ok"
+  /\ tid' = tid + 1 /\ l' = 1 /\ verdict' = "ok" /\ drift' = ""
   /\ s' = Idle /\ UNCHANGED <<last, nops, nenv>>
 
 TNext == TStart \/ TEnv \/ TOp \/ TEnd \/ TRunRet \/ TNextTrace
